@@ -28,6 +28,7 @@ def minLen : Ty → Nat
   | .str => 1
   | .bytes => 1
   | .box _ t => minLen t
+  | .wrap t => minLen t
   | .duration => 12
   | .range t => minLen t + minLen t
   | .bitseq _ _ => 1
@@ -47,6 +48,7 @@ def productive : Ty → Bool
   | .garray _ t => productive t
   | .seq _ _ t => decide (1 ≤ minLen t) && productive t
   | .box _ t => productive t
+  | .wrap t => productive t
   | .range t => productive t
   | .enum _ ts => productiveList ts
   | _ => true
@@ -68,6 +70,7 @@ def held : Ty → Val → Nat
   | .str, .bytes bs => bs.length
   | .bytes, .bytes bs => bs.length
   | .box sz t, v => sz + held t v
+  | .wrap t, v => held t v
   | .range t, .seq [a, b] => held t a + held t b
   | .bitseq store _, .bits bs => Impl.elts (8 * store.size) bs.length * store.size
   | .enum idxs ts, .variant idx v => heldVariant idxs ts idx v
@@ -93,6 +96,7 @@ def baseMem : Ty → Nat
   | .array n t => n * baseMem t
   | .garray n t => n * baseMem t
   | .box sz t => sz + baseMem t
+  | .wrap t => baseMem t
   | .range t => baseMem t + baseMem t
   | .enum _ ts => baseList ts
   | _ => 0
@@ -112,6 +116,7 @@ def memRatio : Ty → Nat
   | .str => 1
   | .bytes => 1
   | .box _ t => memRatio t
+  | .wrap t => memRatio t
   | .range t => memRatio t
   | .bitseq _ _ => 1
   | .enum _ ts => ratioList ts
